@@ -574,7 +574,14 @@ func genRand(n int) {
 			q += `\`
 			tag = "src=randbroken"
 		}
-		emitQ(q, pick(dfChoices), tag)
+		df := pick(dfChoices)
+		emitQ(q, df, tag)
+		// a near-duplicate follow-up: one blank inside a quoted value doubled, or the letter case of one value changed
+		if rng.Intn(12) == 0 {
+			if v := nearDup(q); v != "" {
+				emitQ(v, df, tag)
+			}
+		}
 	}
 }
 
@@ -602,7 +609,7 @@ func genJuxt(n int) {
 		used := false
 		seq := []bool{}
 		a := join(t.words(func() bool { return false }), 0)
-		b := join(t.words(func() bool { x := rng.Intn(3) != 0; seq = append(seq, x); used = used || x; return x }), 0)
+		b := join(t.words(func() bool { x := rng.Intn(3) != 0; seq = append(seq, x); used = used || x; return x }), []int{0, 0, 1, 2}[rng.Intn(4)])
 		if !used {
 			continue
 		}
@@ -649,7 +656,7 @@ func swapCase(s string) string {
 
 // C09: whitespace, keyword case and redundant parentheses variants of one query
 func genLayout(n int) {
-	g := 0
+	g := genShapes(0)
 	for i := 0; i < n; i++ {
 		var words []string
 		var t *qt
@@ -721,6 +728,40 @@ func genLayout(n int) {
 			g++
 		}
 	}
+}
+
+// C09: values in the shapes of other notations, tight against spaced by the documented token rule
+func genShapes(g0 int) int {
+	g := g0
+	for _, s := range valueShapes {
+		toks := splitShape(s)
+		if len(toks) < 2 {
+			continue
+		}
+		for _, ctx := range [][2]string{{"", ""}, {"f:", ""}, {"f:", " AND g:1"}, {"x OR ", ""}, {"NOT ", " y"}} {
+			pre := []string{}
+			if ctx[0] != "" {
+				pre = splitCtx(ctx[0])
+			}
+			post := splitCtx(ctx[1])
+			all := append(append(append([]string{}, pre...), toks...), post...)
+			tight := ctx[0] + s + ctx[1]
+			for _, df := range []string{"", "d"} {
+				emitQ(strings.Join(all, " "), df, fmt.Sprintf("rel=C09ws;g=%d;role=a", g))
+				emitQ(tight, df, fmt.Sprintf("rel=C09ws;g=%d;role=b", g))
+				g++
+			}
+		}
+	}
+	return g
+}
+
+func splitCtx(s string) []string {
+	out := []string{}
+	for _, w := range strings.Fields(strings.ReplaceAll(s, ":", " : ")) {
+		out = append(out, w)
+	}
+	return out
 }
 
 // C11: the same query with and without a default field that does not otherwise occur in it
@@ -830,4 +871,14 @@ func genSubst(n int) {
 		emitQ(join(t.words(nil), 0), df, fmt.Sprintf("rel=C04d;g=%d;role=a", g))
 		emitQ(join(substValues(t).words(nil), 0), df, fmt.Sprintf("rel=C04d;g=%d;role=b", g))
 	}
+}
+
+// nearDup: the query with the first blank inside its first quoted value doubled ("" if there is none)
+func nearDup(q string) string {
+	if i := strings.Index(q, `"`); i >= 0 {
+		if j := strings.Index(q[i+1:], " "); j >= 0 && strings.Index(q[i+1:], `"`) > j {
+			return q[:i+1+j] + " " + q[i+1+j:]
+		}
+	}
+	return ""
 }
